@@ -242,20 +242,40 @@ def _all_tens(node):
             yield from _all_tens(i)
 
 
+def _inner_of(node):
+    """labels carried by two or more axes inside one network node (summed labels)"""
+    out = set()
+    if node.kind == "N":
+        cnt = {}
+        for ti in node.tens:
+            for i in ti["inds"]:
+                cnt[i] = cnt.get(i, 0) + 1
+        out.update(i for i, c in cnt.items() if c >= 2)
+    elif node.kind in ("seq", "map"):
+        for i in node.items:
+            out |= _inner_of(i)
+    return out
+
+
 class Canon:
-    """canonical view of a result tree relative to a set of known (input) labels"""
+    """canonical view of a result tree relative to a set of known (input) labels.
+
+    Labels that are compared only up to a bijection ("free" labels): machine generated labels
+    (rand_uuid) that were not among the inputs, and the summed (inner) labels of a network --
+    the name of a summed label is not part of the labelled content of the network."""
 
     def __init__(self, obj, known):
         self.root = normalise(obj)
         self.known = set(known)
         rp = rand_prefix()
         tens = list(_all_tens(self.root))
+        inner = _inner_of(self.root)
         fresh = {}
         for ti in tens:
             for ix, d in zip(ti["inds"], ti["data"].shape if ti["data"].ndim == len(ti["inds"]) else (0,) * len(ti["inds"])):
-                if ix not in self.known and rp in ix:
+                if (ix not in self.known and rp in ix) or ix in inner:
                     fresh[ix] = d
-        # colour refinement of the fresh labels
+        # colour refinement of the free labels
         col = {ix: (d,) for ix, d in fresh.items()}
         for _ in range(3):
             sig = []
@@ -287,25 +307,54 @@ class Canon:
         return "%s|%s|%s|%s|%s|%s" % (ti["cls"], ",".join(names[k] for k in order), ",".join(str(shp[k]) for k in order),
                                       ti["data"].dtype.name, ",".join(ti["tags"]), left)
 
-    def struct(self, node=None):
-        """JSON-able structural fingerprint (strings, lists, dicts; no floats)"""
+    def _props(self, node):
+        props = []
+        for p, v in node.props:
+            for ix, nm in self.name.items():
+                v = v.replace(ix, nm)
+            props.append("%s=%s" % (p, v))
+        return _h(props)
+
+    def struct(self, node=None, weak=False):
+        """JSON-able structural fingerprint (strings, lists, dicts; no floats).
+        weak=True: what survives a change of gauge -- class, extra properties, the outer labels
+        with their sizes, dtypes, and the tag sets of the tensors."""
         node = node or self.root
         if node.kind == "T":
             return {"k": "T", "ts": [self._tsig(node.tens[0])]}
         if node.kind == "N":
-            props = []
-            for p, v in node.props:
-                for ix, nm in self.name.items():
-                    v = v.replace(ix, nm)
-                props.append("%s=%s" % (p, v))
-            return {"k": "N", "cls": node.cls, "props": _h(props), "ts": sorted(self._tsig(t) for t in node.tens)}
+            if weak:
+                sizes = {}
+                for ti in node.tens:
+                    for i, d in zip(ti["inds"], ti["data"].shape):
+                        sizes[i] = d
+                out = sorted("%s:%d" % (self.cname(i), sizes[i]) for i in _outer(node.tens))
+                return {"k": "N", "cls": node.cls, "props": self._props(node),
+                        "ts": ["outer=" + ",".join(out), "dtypes=" + ",".join(sorted({ti["data"].dtype.name for ti in node.tens})),
+                               "tags=" + ";".join(sorted(",".join(ti["tags"]) for ti in node.tens))]}
+            return {"k": "N", "cls": node.cls, "props": self._props(node), "ts": sorted(self._tsig(t) for t in node.tens)}
         if node.kind == "num":
             return {"k": "num", "ts": ["%s" % (tuple(node.num.shape),)]}
         if node.kind in ("seq", "map"):
-            return {"k": node.kind, "ts": [str(node.keys)] if node.keys else ["-"], "items": [self.struct(i) for i in node.items]}
+            return {"k": node.kind, "ts": [str(node.keys)] if node.keys else ["-"], "items": [self.struct(i, weak) for i in node.items]}
         if node.kind == "none":
             return {"k": "none", "ts": ["-"]}
         return {"k": node.kind, "ts": [str(node.val)]}
+
+
+def collapse(o):
+    """a network of a single tensor stands for that tensor (times 10**exponent), a tensor without
+    labels for its number: the documented difference between `contract(...)` and
+    `contract_(...)` when everything is contracted"""
+    qtn = _qt()
+    if is_tn(o) and o.num_tensors == 1:
+        (t,) = o.tensor_map.values()
+        o = qtn.Tensor(_arr(t.data) * 10.0 ** complex(o.exponent).real, t.inds, t.tags)
+    if is_tensor(o) and o.ndim == 0:
+        return complex(_arr(o.data).reshape(()))
+    if isinstance(o, (list, tuple)):
+        return type(o)(collapse(i) for i in o)
+    return o
 
 
 def _tdist(ta, tb, amap, tol):
